@@ -86,9 +86,6 @@ theorem fit_total (hs : SpaceTotal P ops) (s : Opt α) {e : Fit α τ} (he : Fit
       exact ⟨x, by simp [hy, hcond, hc, hx]⟩
     · exact ⟨y, by simp [hy, hcond]⟩
 
-theorem nonFail_append (a b : List (α × Obj)) : nonFail (a ++ b) = nonFail a + nonFail b := by
-  simp [nonFail, List.filter_append]
-
 /-- the bookkeeping invariant behind "a model has been fit whenever the random phase is over" -/
 structure TInv (s : Opt α) : Prop where
   pos : 1 ≤ s.nInit0
